@@ -736,15 +736,15 @@ impl Check for ReadCheck {
     }
     fn rule_text(&self) -> String {
         let what = match self.id {
-            "C01" => "FASTA inputs (valid multi-record/multi-line LF/CRLF/mixed with blank lines, invalid starts, hostile-alphabet noise, binary, edge strings) x capacity (3..24, record length +-2, input length +-2, large, 64 KiB) x read-chunk script (all-at-once, 1 byte, fixed k, cyclic random with Interrupted) x forced cut offsets at line ends; read via next / records() / into_records() until end was seen repeatedly; every observation compared with the line-splitting reference model",
-            "C02" => "FASTQ inputs (valid LF/CRLF/mixed-per-record with 0..5 trailing blank lines, one defect of each kind at a random record index, hostile noise, binary, edge strings) x capacity x chunk script x cuts; compared with the four-line reference model and its accepted-outcome sets",
+            "C01" => "FASTA inputs (valid multi-record/multi-line LF/CRLF/mixed with blank lines, invalid starts, hostile-alphabet noise, binary, edge strings) x capacity (3..24, record length +-2, input length +-2, large, 64 KiB) x read-chunk script (all-at-once, 1 byte, fixed k, cyclic random with Interrupted) x forced cut offsets at line ends; read via next / records() / into_records() until end was seen repeatedly; every observation compared with the line-splitting reference model; rare profiles: interrupt storm, 64 KiB buffer with short reads, readers opened by path on regular files and on a FIFO (metadata length 0, data in pieces), one record beyond 64 KiB / 1 MiB / 8 MiB at capacities around that size, 150k-1.2M leading blank lines at capacity 3..12. The line lists of FASTA records are observed by external iteration, fold, rfold or fold of a partly consumed iterator, chosen by the record itself",
+            "C02" => "FASTQ inputs (valid LF/CRLF/mixed-per-record with 0..5 trailing blank lines, one defect of each kind at a random record index, hostile noise, binary, edge strings) x capacity x chunk script x cuts; compared with the four-line reference model and its accepted-outcome sets; rare profiles as for C01 (path / FIFO readers; one giant group beyond 64 KiB / 1 MiB / 8 MiB - valid, truncated, wrong first byte, unequal lengths, bad separator - at capacities around that size with sources delivering 4 KiB..1 MiB pieces); ids of up to 66000 bytes",
             "C04" => "histories of Next / OwnedNext / ReadSet(slot) / ReadSetExact(slot,n) / SeekRec / IterSet / Restart(j) (fresh reader on the tail from record j, record sets kept) over 3 record-set slots, length 1..24 plus optional read-to-end tail, both formats, fault-free, growing policy; cursor model checks every delivered batch, exact counts, unchanged earlier sets",
-            "C05" => "histories rich in seeks to model coordinates of every item (records and the invalid FASTQ group) from every state, one run in four with an injected I/O error (after which a successful seek must restore exact reading again); position() compared after every returned record and after set reads; reads after a seek compared with the model from the target on",
-            "C06" => "everything above plus refusing/limited policies, injected source errors on reads and seeks at random call indices, SetPolicy mid-stream, arbitrary continuation after errors and after end, iteration of sets whose fill failed; panic (catch_unwind), per-operation seam-step budget, membership and order of every record handed out",
+            "C05" => "histories rich in seeks to model coordinates of every item (records and the invalid FASTQ group) from every state, one run in four with an injected I/O error (after which a successful seek must restore exact reading again); position() compared after every returned record and after set reads; reads after a seek compared with the model from the target on; one scenario in five starts with a refusing policy, half of those install a permissive one at a random later point",
+            "C06" => "everything above plus refusing/limited policies, injected source errors on reads and seeks at random call indices, SetPolicy mid-stream, arbitrary continuation after errors and after end, iteration of sets whose fill failed; panic (catch_unwind), per-operation seam-step budget, membership and order of every record handed out; readers opened by path (regular file or FIFO; empty and 1..3-byte files)",
             "C13" => "accessor relations evaluated on every record handed out (next, owned, record sets) in histories over wild-byte inputs",
-            "C17" => "FASTA: 0..40 leading blank lines then a non-'>' line (also one starting with CR); FASTQ: valid prefix of 0..8 records plus one defect; one run in six reaches the defect after a refused growth and set_policy(Std); capacity placed so the defect lies -3..+3 around a buffer end (or drawn freely); error fields compared with the model, message checked for line, found byte (escape_default), lengths and id",
-            "C19" => "serde_json round trip of every owned record and of every record set after each set read - freshly filled, or returned from a failed read (refusing policy / injected I/O error in one run of five) or from an end-of-input read; slots are reused, so stale offsets beyond len() occur; a KiB-buffer profile puts sets far from buffer offset 0",
-            "C20" => "seeded histories of next / next_back / nth(k) / nth_back(k) steps on seq_lines() of every FASTA record handed out against a VecDeque model with len()/size_hint() checked before every step, nth/skip overshoot on SeqLines and both RecordSetIters, adaptors enumerate().rev(), enumerate from both ends, skip().rev(), zip().rev(), collect; RecordSetIter size hints and fusedness; RecordsIter/RecordsIntoIter stay at end",
+            "C17" => "FASTA: 0..40 leading blank lines then a non-'>' line (also one starting with CR); FASTQ: valid prefix of 0..8 records plus one defect; one run in six reaches the defect after a refused growth and set_policy(Std); capacity placed so the defect lies -3..+3 around a buffer end (or drawn freely); error fields compared with the model, message checked for line, found byte (escape_default), lengths and id; ids longer than 4 KiB and 64 KiB; 1 in 3000: one giant defective group beyond 64 KiB / 1 MiB / 8 MiB",
+            "C19" => "serde_json round trip of every owned record and of every record set after each set read - freshly filled, or returned from a failed read (refusing policy / injected I/O error in one run of five) or from an end-of-input read; slots are reused, so stale offsets beyond len() occur; a KiB-buffer profile puts sets far from buffer offset 0 - through three formats: JSON text, serde_json::Value, and CBOR (ciborium: length-prefixed sequences/maps, native byte strings)",
+            "C20" => "seeded histories of next / next_back / nth(k) / nth_back(k) steps on seq_lines() of every FASTA record handed out against a VecDeque model with len()/size_hint() checked before every step, nth/skip overshoot on SeqLines and both RecordSetIters, adaptors enumerate().rev(), enumerate from both ends, skip().rev(), zip().rev(), collect; RecordSetIter size hints and fusedness; RecordsIter/RecordsIntoIter stay at end; internal iteration (count, last, for_each/fold, rfold, rev().fold) of fresh and partly consumed iterators must cover exactly what is left; one run in eight reads a growing input (one read returns Ok(0) before the data ends): once any read has reported the end, every later read reports the end (rule end_not_sticky, model-independent)",
             _ => "",
         };
         format!("{}. A run counts as non-trivial when the reader had to refill, grow, was refused, was interrupted or hit an injected fault; distinct = distinct (input, full seam+outcome event log) hash.", what)
